@@ -660,7 +660,7 @@ class Connection(object):
         if exc:
             try:
                 raise self._unbox_exc(exc)
-            except Exception:
+            except BaseException:
                 exc, typ, tb = sys.exc_info()
         else:
             typ = tb = None
